@@ -69,6 +69,67 @@ def s3_gc_probe(ctx, rep):
                                'replay': {'probe': 's3_gc'}})
 
 
+def scale_probe(ctx, rep):
+    """More chunks in one delete / one clean than any batch, page or buffer size the code uses (integer constants found in
+    replicat/repository.py, at least 2300): a big snapshot and a small one sharing part of it; after deleting the big one the chunk
+    objects must be exactly the small one's; garbage of the same size must be collected completely by clean."""
+    import ast
+    import asyncio, contextlib, io
+    from pathlib import Path
+    from harness.memstore import AsyncMemBackend
+    from replicat.repository import Repository
+    consts = [2000]
+    try:
+        tree = ast.parse((Path(core.REPO) / 'replicat' / 'repository.py').read_text())
+        for n_ in ast.walk(tree):
+            if isinstance(n_, ast.Assign) and isinstance(n_.value, ast.Constant) and isinstance(n_.value.value, int) and not isinstance(n_.value.value, bool):
+                names = [ast.unparse(t) for t in n_.targets]
+                if any(x.split('.')[-1].isupper() for x in names) and 50 <= n_.value.value <= 5000:
+                    consts.append(n_.value.value)
+    except Exception:
+        pass
+    n = min(2 * max(consts) + 300, 11000)
+    wd = Path(ctx.scratch) / 'scale'
+    (wd / 'big').mkdir(parents=True)
+    (wd / 'small').mkdir(parents=True)
+    blocks = [ctx.rng.randbytes(32) for _ in range(n)]
+    (wd / 'big' / 'f').write_bytes(b''.join(blocks))
+    (wd / 'small' / 'g').write_bytes(b''.join(blocks[:300]) + ctx.rng.randbytes(32 * 20))
+    be = AsyncMemBackend()
+    out = {}
+
+    async def go():
+        r = Repository(be, concurrent=8, quiet=True, cache_directory=None)
+        await r.init(settings={'encryption': None, 'chunking': {'min_length': 32, 'max_length': 32}, 'hashing': {'name': 'blake2b', 'length': 16}})
+        big = await r.snapshot(paths=[wd / 'big'])
+        small = await r.snapshot(paths=[wd / 'small'])
+        loc = r._chunk_digest_to_location
+        await r.delete_snapshots([big.name], confirm=False)
+        out['after_delete'] = {k for k in be.objects if k.startswith('data/')}
+        out['small'] = {loc(d) for d in small.chunks}
+        # the same amount of garbage: the big snapshot again, its snapshot object lost
+        big2 = await r.snapshot(paths=[wd / 'big'])
+        be.objects.pop(big2.location)
+        await r.clean()
+        out['after_clean'] = {k for k in be.objects if k.startswith('data/')}
+        out['snapshots'] = [k for k in be.objects if k.startswith('snapshots/')]
+    with contextlib.redirect_stdout(io.StringIO()), contextlib.redirect_stderr(io.StringIO()):
+        asyncio.run(asyncio.wait_for(go(), 600))
+    rep.case(('scale', n), nontrivial=True)
+    rep.count('scale_probe_chunks', n)
+    import shutil as _sh
+    _sh.rmtree(wd, ignore_errors=True)
+    for phase, what in (('after_delete', 'delete of a snapshot with %d chunks' % n), ('after_clean', 'clean with %d unreferenced chunks' % n)):
+        left = out[phase] - out['small']
+        gone = out['small'] - out[phase]
+        if left:
+            rep.violations.append({'what': f'{what} completed but left {len(left)} chunk(s) that nothing references', 'signature': {'kind': 'gc_incomplete', 'probe': 'scale'},
+                                   'replay': {'probe': 'scale', 'chunks': n}})
+        if gone:
+            rep.violations.append({'what': f'{what} removed {len(gone)} chunk(s) the remaining snapshot references', 'signature': {'kind': 'gc_overreach', 'probe': 'scale'},
+                                   'replay': {'probe': 'scale', 'chunks': n}})
+
+
 CLI_MINE = ('exception', 'hang', 'snapshot_unreadable', 'snapshot_objects', 'snapshot_name', 'gc_incomplete', 'gc_overreach', 'config_touched', 'unknown_object', 'refused_delete_mutated', 'referenced_chunk_missing', 'snapshot_not_listed')
 
 
@@ -77,6 +138,7 @@ def _run(ctx, n, nops, rep, concurrent=None):
     repo_hist.run_batch(seeds, ctx.scratch, rep, nops=nops, weights=WEIGHTS, checks=CHECKS,
                         concurrent=concurrent or ctx.rng.choice([1, 2, 4]), delay=0.001)
     s3_gc_probe(ctx, rep)
+    scale_probe(ctx, rep)
     rep.violations[:] = [v for v in rep.violations if v['signature']['kind'] in MINE]
     # the same property through the tool as a user runs it: fresh `python -m replicat` processes, a repository on disk, real faults
     cli_hist.run_scenarios(ctx, rep, {'plain': ctx.scale(4, 40), 'oserror': ctx.scale(4, 40)}, CLI_MINE)
@@ -102,6 +164,12 @@ def replay(ctx, obj):
     rc = cli_hist.replay_cli(ctx, obj, CLI_MINE)
     if rc is not None:
         return rc
+    if (obj.get('replay') or {}).get('probe') == 'scale':
+        rep = Report(rule=RULE)
+        scale_probe(ctx, rep)
+        for v in rep.violations:
+            print('VIOLATION-REPRODUCED', v['what'])
+        return 1 if rep.violations else 0
     if (obj.get('replay') or {}).get('probe') == 'remote':
         rep = Report(rule=RULE)
         remote_hist.remote_probe(ctx, rep, ('exception', 'gc_incomplete', 'gc_overreach', 'referenced_chunk_missing'), deployments=[obj['replay']['deployment']])
